@@ -5,6 +5,7 @@ import (
 	"encoding/json"
 	"fmt"
 	"os"
+	"runtime/pprof"
 	"strconv"
 
 	"verif/sim/core"
@@ -40,6 +41,11 @@ func main() {
 		b, _ := json.MarshalIndent(res, "", " ")
 		fmt.Fprintln(realStdout, string(b))
 	case "hash":
+		if pf := os.Getenv("SIM_CPUPROFILE"); pf != "" {
+			f, _ := os.Create(pf)
+			pprof.StartCPUProfile(f)
+			defer pprof.StopCPUProfile()
+		}
 		// print the event-log hash and outcome digest of one seed (determinism self-test)
 		if len(os.Args) < 5 {
 			usage()
